@@ -270,6 +270,47 @@ def unit_dense_backward(degenerate):
     return kit.run_unit("dense_backward[2x2,%s]" % ("degenerate" if degenerate else "separated"), run)
 
 
+def unit_check_degen(shape):
+    """_check_degen on eigenvalue tensors of a concrete shape with symbolic entries (also batched)"""
+    fe = importlib.import_module("xitorch.linalg.symeig")
+    import itertools
+
+    def run():
+        c = ctx()
+        T = arr.make_torch()
+        ev = arr.sym("e", shape)
+        atol, rtol = 1e-3, 1e-2
+        tag = "check_degen[evals%s]" % (list(shape),)
+        with kit.patched(fe, "torch", T):
+            ok, res = kit.call_or_fail(c, tag + ":does_not_raise", lambda: fe._check_degen(ev, atol, rtol))
+        if not ok:
+            return
+        idx, isdeg = res
+        k = shape[-1]
+        c.check(tag + ":map_has_one_neig_x_neig_block_per_batch_element", isinstance(idx, arr.Tensor) and idx.shape == tuple(shape) + (k,))
+        if not (isinstance(idx, arr.Tensor) and idx.shape == tuple(shape) + (k,)):
+            return
+        A, R = z3.RealVal(repr(atol)), z3.RealVal(repr(rtol))
+        off = []
+        for b in itertools.product(*[range(d) for d in shape[:-1]]):
+            for i in range(k):
+                for j in range(k):
+                    ei, ej = ev.a[b + (i,)], ev.a[b + (j,)]
+                    d = z3.If(ei - ej >= 0, ei - ej, ej - ei)
+                    close = d < A + R * z3.If(ei >= 0, ei, -ei)
+                    c.prove(tag + ":entry_is_1_iff_the_two_eigenvalues_are_within_the_tolerance_else_0",
+                            idx.a[b + (i, j)] == z3.If(close, z3.RealVal(1), z3.RealVal(0)))
+                    if i != j:
+                        off.append(close)
+        anyoff = z3.Or(*off) if off else z3.BoolVal(False)
+        # the flag (a python bool: the path forked on it) says whether ANY pair of distinct eigenvalues of ANY batch
+        # element is degenerate
+        c.prove(tag + ":flag_is_true_iff_some_pair_of_distinct_eigenvalues_is_degenerate_anywhere_in_the_batch",
+                anyoff if isdeg else z3.Not(anyoff))
+        c.prove("canary", z3.BoolVal(False), kind="canary")
+    return kit.run_unit("check_degen[evals%s]" % (list(shape),), run)
+
+
 def unit_svd_options():
     from props import C05
     return C05.unit_svd("tall", "uppest", False, False)
@@ -292,4 +333,5 @@ def units(tier):
             ("backward[noM,1,1]", lambda: unit_backward(False, 1, 1)), ("backward[noM,2,1]", lambda: unit_backward(False, 2, 1)),
             ("backward[M,1,1]", lambda: unit_backward(True, 1, 1)), ("backward[M,2,2]", lambda: unit_backward(True, 2, 2)),
             ("dense_backward[2x2,separated]", lambda: unit_dense_backward(False)), ("dense_backward[2x2,degenerate]", lambda: unit_dense_backward(True)),
+            ("check_degen[evals[3]]", lambda: unit_check_degen((3,))), ("check_degen[evals[2, 2]]", lambda: unit_check_degen((2, 2))),
             ("svd[tall,uppest,partial,real]", unit_svd_options), ("bounded", unit_bounded)]
